@@ -264,18 +264,19 @@ impl AcScan {
                 AcMatchStatus::None => (),
                 AcMatchStatus::Multiple(v) if v.is_empty() => (),
                 AcMatchStatus::Multiple(found_matches) => {
-                    var_matches.extend(found_matches.into_iter().map(|m| {
-                        StringMatch::new(region, m, scan_data.params.match_max_length, 0)
-                    }));
+                    for m in found_matches {
+                        insert_match(
+                            var_matches,
+                            StringMatch::new(region, m, scan_data.params.match_max_length, 0),
+                        );
+                    }
                 }
                 AcMatchStatus::Single(m) => {
                     let xor_key = var.get_xor_key(literal_index);
-                    var_matches.push(StringMatch::new(
-                        region,
-                        m,
-                        scan_data.params.match_max_length,
-                        xor_key,
-                    ));
+                    insert_match(
+                        var_matches,
+                        StringMatch::new(region, m, scan_data.params.match_max_length, xor_key),
+                    );
                 }
             }
 
@@ -301,6 +302,26 @@ impl AcScan {
 
         Ok(())
     }
+}
+
+/// Add a match to the matches of a variable.
+///
+/// Matches of a region are kept sorted by offset, with a single match per offset: the
+/// different literals of a variable can report matches out of order (their atoms are not
+/// at the same position in each literal), or on the same offset.
+fn insert_match(var_matches: &mut Vec<StringMatch>, mat: StringMatch) {
+    let mut pos = var_matches.len();
+    while pos > 0
+        && var_matches[pos - 1].base == mat.base
+        && var_matches[pos - 1].offset > mat.offset
+    {
+        pos -= 1;
+    }
+    if pos > 0 && var_matches[pos - 1].base == mat.base && var_matches[pos - 1].offset == mat.offset
+    {
+        return;
+    }
+    var_matches.insert(pos, mat);
 }
 
 fn scan_single_variable(
